@@ -55,11 +55,18 @@ def gen_cases(ctx: Ctx):
     for g in (0.5, 0.8, 0.0, 1.0)[:ctx.pick(2, 4)]:
         for _ in range(ctx.pick(2, 6)):
             cases.append(("configured_dqn", g, rng.randrange(10 ** 6)))
+    # the update inside a real iteration() bootstraps from the target network(s) held in the algorithm state
+    for kind in ("DQN", "SAC"):
+        for _ in range(ctx.pick(2, 6)):
+            cases.append(("target_dependence", kind, rng.randrange(10 ** 6)))
     return cases
 
 
 def record(case):
     from .. import drive_losses as dl
+    if case[0] == "target_dependence":
+        from .. import drive_identity as di
+        return dict(di.target_dependence_case(case[1], case[2]), c={})
     if case[0] == "configured_dqn":
         from .. import drive_identity as di
         return dict(di.dqn_routing_case(case[1], case[2]), c={})
